@@ -816,6 +816,29 @@ def install(I):
             outs.extend(panic(I, s2, 'overflow in Duration arithmetic') if is_bad else [Outcome(s2, 'ret', dur(s))])
         return outs
 
+    @M(r'^<(std::time::)?Duration as (Div|Mul)<u32>>::(div|mul)$', 'Duration * / u32')
+    def m_dur_divmul(I, st, f, args, fr):
+        a = dur_n(I, st, args[0])
+        n = I.cast_int(int_of(I, st, args[1]), 'u128')
+        G = I.mk_int(NANOS, 'u128')
+        if f.endswith('mul'):
+            s = I.binop('Mul', a, n, st)
+            bad = I.binop('Gt', s, I.mk_int(DUR_MAX_NANOS, 'u128'), st) if I.mode == 'int' else z3.BoolVal(False)
+            outs = []
+            for s2, is_bad in branch(I, st, bad):
+                outs.extend(panic(I, s2, 'overflow when multiplying duration by scalar') if is_bad else [Outcome(s2, 'ret', dur(s))])
+            return outs
+        outs = []
+        for s2, zero in branch(I, st, I.binop('Eq', n, I.mk_int(0, 'u128'), st)):
+            if zero:
+                outs.extend(panic(I, s2, 'divide by zero error when dividing duration by scalar'))
+                continue
+            secs, ns = I.binop('Div', a, G, s2), I.binop('Rem', a, G, s2)
+            r = I.binop('Add', I.binop('Mul', I.binop('Div', secs, n, s2), G, s2),
+                        I.binop('Add', I.binop('Div', I.binop('Mul', I.binop('Rem', secs, n, s2), G, s2), n, s2), I.binop('Div', ns, n, s2), s2), s2)
+            outs.append(Outcome(s2, 'ret', dur(r)))
+        return outs
+
     @M(r'^(tokio::time::|std::time::)?Instant::now$', 'Instant::now (virtual clock)')
     def m_now(I, st, f, args, fr):
         h = I.hooks.get('clock_now')
